@@ -32,6 +32,7 @@ func checkC17(c *Ctx, r *Report) {
 	checkSharpen(c, r)
 	checkMatrixCache(c, r)
 	checkRowAlias(c, r)
+	checkHistogramInit(c, r)
 	runEDrop(c, r, []string{""}, 3)
 	r.Note("decided: the structural part of the view algebra (guards, offsets, index maps, wrappers) and of the two binarisers (block geometry, pixel/coordinate agreement, comparators, constants, cache discipline). Not decided: pixel-wise equality on concrete images, the histogram valley search and the 5x5 averaging arithmetic as numerical results; exact binarisation of bilevel images is argued from the checked comparators and constants, not computed")
 }
